@@ -848,7 +848,7 @@ func applyRewrite(pod *corev1.Pod, req InjectionParameters) error {
 	rewrite := ShouldRewriteAppHTTPProbers(pod.Annotations, req.valuesConfig.asStruct.GetSidecarInjectorWebhook().GetRewriteAppHTTPProbe().GetValue())
 	// We don't have to escape json encoding here when using golang libraries.
 	if rewrite {
-		if prober := DumpAppProbers(pod, req.meshConfig.GetDefaultConfig().GetStatusPort()); prober != "" {
+		if prober := DumpAppProbers(pod, probeStatusPort(pod.Annotations, req.meshConfig.GetDefaultConfig().GetStatusPort())); prober != "" {
 			// If sidecar.istio.io/status is not present then append instead of merge.
 			_, previouslyInjected := pod.Annotations[annotation.SidecarStatus.Name]
 			sidecar.Env = mergeOrAppendProbers(previouslyInjected, sidecar.Env, prober)
@@ -856,6 +856,18 @@ func applyRewrite(pod *corev1.Pod, req InjectionParameters) error {
 		patchRewriteProbe(pod.Annotations, pod, req.meshConfig.GetDefaultConfig().GetStatusPort())
 	}
 	return nil
+}
+
+// probeStatusPort is the agent port application probes are rewritten to: the status.sidecar.istio.io/port annotation
+// when it is set, as in patchRewriteProbe, else the mesh default. DumpAppProbers recognises an already rewritten probe
+// by this port, so both must agree.
+func probeStatusPort(annotations map[string]string, defaultPort int32) int32 {
+	if v, f := annotations[annotation.SidecarStatusPort.Name]; f {
+		if p, err := strconv.Atoi(v); err == nil {
+			return int32(p)
+		}
+	}
+	return defaultPort
 }
 
 // mergeOrAppendProbers ensures that if sidecar has existing ISTIO_KUBE_APP_PROBERS,
